@@ -21,7 +21,12 @@ once per logged call with exactly that call failing (EMFILE; FileNotFoundError /
 EAGAIN and the non-OSErrors ValueError / TypeError for Popen; RuntimeError for Thread.start), same
 oracle.  THREE-STAGE EARLY EXIT (both tiers): <endless or slow producer> | <middle that leaves after
 one line> | <reader until EOF>, external and alias kinds in each position, under the per-case alarm
-(a wedge is `hang:<shape>`).  NUL family: the natural non-OSError spawn failure - an exported
+(a wedge is `hang:<shape>`).  LONG-LIVED UPSTREAM (both tiers): a stage that lives 4.2 s and never
+touches its pipe (external `sleeper`, alias `tsleep`) in front of a fast last stage, under every
+wait path (capture form x external/alias last stage); besides the usual snapshots the stages are
+counted right when the command returns (0.3 s grace): `returned-early[child|ProcProxyThread]` unless
+the same stage is also reported as left running / un-reaped; these shapes keep their own keys
+(no reduction across capture forms: the wait path is the point).  NUL family: the natural non-OSError spawn failure - an exported
 variable containing a NUL byte makes Popen() raise ValueError - and a NUL in argv as control.
 
 Does NOT require:
